@@ -41,7 +41,7 @@ LOCALSPLUS = VARNAMES + tuple(c for c in CELLS if c not in VARNAMES) + FREES
 class RefCode(object):
     """code object as the host's dis source sees it: content identical, line data from the validated model"""
 
-    def __init__(self, items, code_bytes, table_items, firstlineno):
+    def __init__(self, items, code_bytes, table_items, firstlineno, exctable=b""):
         self.co_code = code_bytes
         self.co_consts = CONSTS
         self.co_names = NAMES
@@ -49,7 +49,7 @@ class RefCode(object):
         self.co_cellvars = CELLS
         self.co_freevars = FREES
         self.co_firstlineno = firstlineno
-        self.co_exceptiontable = b""
+        self.co_exceptiontable = exctable
         self._table = table_items
 
     def co_lines(self):
@@ -69,7 +69,8 @@ def host_ob(opc, op, tier):
     table_op = any(op in real[c] for c in ("hasconst", "hasname", "haslocal", "hasfree", "hascompare"))
     # a table-indexed operand is realised by the table lookup (one path per value): 0..15 covers the 3-6 entry marker tables
     # and the encoded (shifted) operands; everything else gets the full byte
-    params = [("x", (0, (7 if table_op else 63) if has_arg else 0)), ("cf", (1, 100000)), ("fl", (1, 100000)), ("useline", (0, 1))]
+    params = [("x", (0, (7 if table_op else 63) if has_arg else 0)), ("cf", (1, 100000)), ("fl", (1, 100000)), ("useline", (0, 1)),
+              ("et", (0, 3))]
     forms = ["n1"]
     for i, f in enumerate(forms):
         params += c17.form_params("e%d" % i, f, 0)
@@ -97,7 +98,14 @@ def host_ob(opc, op, tier):
         code_bytes = mkbytes(items)
         t = table(kw)
         first_line = kw["fl"] if kw["useline"] == 1 else None
-        ref_code = RefCode(items, code_bytes, t, kw["cf"])
+        # one exception-table entry covering the first code unit, handler at code unit et (et = 3: no table): handler
+        # targets are jump targets for dis
+        et = kw["et"]
+        exctable = b""
+        for cand in (0, 1, 2):
+            if et == cand:
+                exctable = bytes([0x80, 1, cand, 0])
+        ref_code = RefCode(items, code_bytes, t, kw["cf"], exctable)
         dis = oracles.load_dis(HOST)
         try:
             ref = list(dis.get_instructions(ref_code, first_line=first_line))
@@ -106,7 +114,7 @@ def host_ob(opc, op, tier):
         ref_labels = list(dis.findlabels(code_bytes))
         ref_starts = list(dis.findlinestarts(ref_code))
         code = make_portable(HOST, co_code=code_bytes, co_consts=CONSTS, co_names=NAMES, co_varnames=VARNAMES, co_cellvars=CELLS,
-                             co_freevars=FREES, co_firstlineno=kw["cf"], co_lnotab=mkbytes(t), co_exceptiontable=b"")
+                             co_freevars=FREES, co_firstlineno=kw["cf"], co_lnotab=mkbytes(t), co_exceptiontable=exctable)
         with no_text(opc):
             got = [i for i in S.get_instructions(code, first_line=first_line) if i.opname != "CACHE"]
             labels = list(S.findlabels(code_bytes))
@@ -121,6 +129,19 @@ def host_ob(opc, op, tier):
                 assert _eq(g.argval, r.argval), "argval at %d: xdis.std %r, dis %r" % (r.offset, g.argval, r.argval)
         assert _list_eq(labels, ref_labels), "findlabels %r vs dis %r" % (labels, ref_labels)
         assert _list_eq(starts, ref_starts), "findlinestarts %r vs dis %r" % (starts, ref_starts)
+        # the Bytecode class (its iteration, unlike get_instructions, also marks exception-handler targets), then the
+        # module-level functions once more on the same code
+        ref_bc = [r for r in dis.Bytecode(ref_code, first_line=first_line)]
+        with no_text(opc):
+            got_bc = [i for i in S.Bytecode(code, first_line=first_line) if i.opname != "CACHE"]
+            labels2 = list(S.findlabels(code_bytes))
+        ref_bc = [r for r in ref_bc if r.opname != "CACHE"]
+        assert len(got_bc) == len(ref_bc), "Bytecode: instruction count %d vs dis %d" % (len(got_bc), len(ref_bc))
+        for g, r in zip(got_bc, ref_bc):
+            assert g.offset == r.offset and g.opcode == r.opcode, "Bytecode stream at %d" % r.offset
+            assert bool(g.is_jump_target) == bool(r.is_jump_target), "Bytecode: is_jump_target at %d: xdis.std %r, dis %r" % (r.offset, g.is_jump_target, r.is_jump_target)
+            assert _eq(g.starts_line, r.starts_line), "Bytecode: starts_line at %d" % r.offset
+        assert _list_eq(labels2, ref_labels), "findlabels after Bytecode iteration %r vs dis %r" % (labels2, ref_labels)
 
     return Ob(id="C20.host.op%d" % op, prop="C20", params=params, body=body, pre=pre, funcs=FUNCS, region="host.%s" % opc.opname[op],
               skeleton="xdis.std on host-version code: NOP; %s x; caches" % opc.opname[op],
